@@ -561,3 +561,128 @@ def find_loops(func, over_text=None):
         if over_text is None or utext(s.iter) == over_text:
             out.append(s)
     return out
+
+
+# ---------------------------------------------------------------------------- folding evaluation of paths
+class _Fold(ast.NodeTransformer):
+    """substitute known locals and fold lookups in module-level literal tables, getattr with a constant name,
+    and tuple indexing"""
+
+    def __init__(self, env, tables, subst=None):
+        self.env, self.tables, self.subst = env, tables, subst or {}
+
+    def visit_Attribute(self, a):
+        if self.subst and utext(a) in self.subst:
+            return ast.parse(self.subst[utext(a)], mode="eval").body
+        return self.generic_visit(a)
+
+    def visit_Name(self, n):
+        if isinstance(n.ctx, ast.Load) and n.id in self.env:
+            import copy as _c
+            return _c.deepcopy(self.env[n.id])
+        return n
+
+    def _table(self, e):
+        if isinstance(e, ast.Name) and e.id in self.tables and isinstance(self.tables[e.id], ast.Dict):
+            return self.tables[e.id]
+        return None
+
+    def _lookup(self, table, k, default):
+        kt = utext(k)
+        for kk, vv in zip(table.keys, table.values):
+            if kk is not None and utext(kk) == kt:
+                import copy as _c
+                return _c.deepcopy(vv)
+        return default
+
+    def visit_Call(self, c):
+        self.generic_visit(c)
+        f = c.func
+        if isinstance(f, ast.Attribute) and f.attr == "get" and self._table(f.value) is not None and c.args:
+            default = c.args[1] if len(c.args) > 1 else ast.Constant(value=None)
+            return self._lookup(self._table(f.value), c.args[0], default)
+        if isinstance(f, ast.Name) and f.id == "getattr" and len(c.args) == 2 and isinstance(c.args[1], ast.Constant) \
+                and isinstance(c.args[1].value, str):
+            return ast.Attribute(value=c.args[0], attr=c.args[1].value, ctx=ast.Load())
+        return c
+
+    def visit_Subscript(self, n):
+        self.generic_visit(n)
+        t = self._table(n.value)
+        if t is not None:
+            r = self._lookup(t, n.slice, None)
+            if r is not None:
+                return r
+        if isinstance(n.value, ast.Tuple) and isinstance(n.slice, ast.Constant) and isinstance(n.slice.value, int) \
+                and -len(n.value.elts) <= n.slice.value < len(n.value.elts):
+            return n.value.elts[n.slice.value]
+        return n
+
+
+def _const_truth(e):
+    """truth value of a folded expression if it is decided, else None"""
+    if isinstance(e, ast.Constant):
+        return bool(e.value)
+    if isinstance(e, (ast.Tuple, ast.List, ast.Dict, ast.Set)):
+        return bool(getattr(e, "elts", None) or getattr(e, "keys", None))
+    if isinstance(e, ast.Compare) and len(e.ops) == 1 and isinstance(e.ops[0], (ast.Is, ast.IsNot)):
+        l, r = e.left, e.comparators[0]
+        if isinstance(r, ast.Constant) and r.value is None:
+            if isinstance(l, ast.Constant):
+                return (l.value is None) == isinstance(e.ops[0], ast.Is)
+            if isinstance(l, (ast.Tuple, ast.List, ast.Dict, ast.Attribute)):
+                return isinstance(e.ops[0], ast.IsNot)
+    if isinstance(e, ast.UnaryOp) and isinstance(e.op, ast.Not):
+        v = _const_truth(e.operand)
+        return None if v is None else not v
+    return None
+
+
+def folded_returns(cfg, func, atom_eval, limit=4000, subst=None):
+    """the return expressions reachable when branch atoms are decided by atom_eval (None = both ways) and, where
+    that says nothing, by folding: locals are substituted by the expressions assigned to them along the path,
+    lookups in module-level literal tables (`T.get(k)`, `T[k]`), `getattr(x, "name")` and tuple unpacking are
+    evaluated.  Returns the set of canonical texts (an if-chain and a table-driven dispatch give the same)."""
+    tables = dict(func.module.constants)
+    out = set()
+    stack = [(cfg.entry, {})]
+    steps = 0
+    while stack:
+        nid, env = stack.pop()
+        steps += 1
+        if steps > limit:
+            raise AnalysisError("%s: path enumeration did not terminate" % func.qual)
+        n = cfg.nodes[nid]
+        if n.kind == "return":
+            import copy as _c
+            v = _Fold(env, tables, subst).visit(_c.deepcopy(n.ast.value)) if n.ast.value is not None else ast.Constant(value=None)
+            out.add(utext(v))
+            continue
+        if n.kind == "stmt" and isinstance(n.ast, ast.Assign) and len(n.ast.targets) == 1:
+            import copy as _c
+            val = _Fold(env, tables, subst).visit(_c.deepcopy(n.ast.value))
+            t = n.ast.targets[0]
+            env = dict(env)
+            if isinstance(t, ast.Name):
+                env[t.id] = val
+            elif isinstance(t, ast.Tuple) and isinstance(val, ast.Tuple) and len(t.elts) == len(val.elts) \
+                    and all(isinstance(x, ast.Name) for x in t.elts):
+                for x, v in zip(t.elts, val.elts):
+                    env[x.id] = v
+            else:
+                for x in ast.walk(t):
+                    if isinstance(x, ast.Name):
+                        env.pop(x.id, None)
+        if n.kind == "cond":
+            v = atom_eval(n.exprs[0])
+            if v is None:
+                import copy as _c
+                v = _const_truth(_Fold(env, tables, subst).visit(_c.deepcopy(n.exprs[0])))
+            if v is not None:
+                stack += [(m, env) for l, m in n.succ if l == ("T" if v else "F")]
+                continue
+        if n.kind == "exit":
+            out.add("None")
+            continue
+        stack += [(m, env) for l, m in n.succ if l != "exc"]
+    return out
